@@ -74,7 +74,7 @@ def gen(seed: int, i: int, tier: str) -> dict:
         return {"cfg": {"pin": proto}, "ops": [["line", s.format(v=proto)] for s in short],
                 "tapes": {"w.fail.pres": [(fp >> b) & 1 for b in range(2)]}}
     proto = rng.choice(G.PROTOS)
-    nodes = rng.sample([1, 2, 3, 9, 254], rng.randint(1, 3))
+    nodes = rng.sample([0, 1, 2, 3, 9, 254, 255], rng.randint(1, 3))
     ops = []
     for n in nodes:
         if rng.random() < 0.4:
